@@ -298,6 +298,9 @@ class SymEval:
         A = self.A
         if len(a.shape) == 2 and len(b.shape) == 2:
             if a.shape[1] != b.shape[0]:
+                if all(isinstance(d_, int) for d_ in a.shape + b.shape):
+                    raise BroadcastError('matmul: inner dimensions of %s and %s differ'
+                                         % (a.shape, b.shape))
                 raise Unsupported('matmul shapes %s %s' % (a.shape, b.shape))
             out = SArray((a.shape[0], b.shape[1]), {}, None, a.sample or b.sample)
             for i in range(a.shape[0]):
@@ -309,6 +312,9 @@ class SymEval:
             return out
         if len(a.shape) == 2 and len(b.shape) == 1:
             if a.shape[1] != b.shape[0]:
+                if all(isinstance(d_, int) for d_ in a.shape + b.shape):
+                    raise BroadcastError('matrix-vector product: inner dimensions of %s and %s '
+                                         'differ' % (a.shape, b.shape))
                 raise Unsupported('matvec shapes %s %s' % (a.shape, b.shape))
             out = SArray((a.shape[0],), {}, None, a.sample or b.sample)
             for i in range(a.shape[0]):
@@ -344,6 +350,9 @@ class SymEval:
         for letters, arr in ((ia, a), (ib, b)):
             for l, d in zip(letters, arr.shape):
                 if dims.setdefault(l, d) != d:
+                    if isinstance(d, int) and isinstance(dims[l], int) and 1 not in (d, dims[l]):
+                        raise BroadcastError('einsum: operands disagree on the length of axis '
+                                             "'%s' (%s vs %s)" % (l, dims[l], d))
                     raise Unsupported('einsum dimension mismatch on %s' % l)
         summed = [l for l in dims if l not in out]
         A = self.A
@@ -1485,6 +1494,10 @@ class SymEval:
                     elif v.shape == tgt.shape[len(tgt.shape) - len(v.shape):]:
                         val = v.get(oidx[len(tgt.shape) - len(v.shape):])
                     else:
+                        if all(isinstance(d_, int) for d_ in v.shape + tgt.shape) and \
+                                1 not in v.shape and len(v.shape) <= len(tgt.shape):
+                            raise BroadcastError('could not broadcast input array from shape %s '
+                                                 'into shape %s' % (v.shape, tgt.shape))
                         raise Unsupported('store shape %s into %s' % (v.shape, tgt.shape))
                 else:
                     val = self.rat(v)
